@@ -1236,18 +1236,30 @@ theorem transferOp_SInv {c : Cfg} (hg : good c = true) {s s' : State} {f t v x :
           exact ⟨SInv_setVS hi hv2, rfl, rfl⟩
 
 /-- a change of the validator's status touches none of the records the invariant speaks about -/
-theorem status_VInv {n : Nat} {v : VS} (b j : Bool) (u : Nat) (hi : VInv n v) :
-    VInv n { v with bonded := b, ubHeight := u, jailed := j } :=
+theorem status_VInv {n : Nat} {v : VS} (b ub j : Bool) (u : Nat) (hi : VInv n v) :
+    VInv n { v with bonded := b, unbonded := ub, ubHeight := u, jailed := j } :=
   ⟨hi.sum, RI.congr (v := v) rfl rfl rfl rfl rfl hi.ri, hi.dom⟩
 
 theorem endBlock_VInv {n : Nat} {v : VS} (h : Nat) (hi : VInv n v) : VInv n (v.endBlock h) := by
   unfold VS.endBlock
   dsimp only
   split
-  · exact status_VInv false v.jailed h hi
+  · exact status_VInv false v.unbonded v.jailed h hi
   · split
-    · exact status_VInv true v.jailed v.ubHeight hi
+    · exact status_VInv true false v.jailed v.ubHeight hi
     · exact hi
+
+theorem matureVal_VInv {n : Nat} {v : VS} (hi : VInv n v) : VInv n v.matureVal := by
+  unfold VS.matureVal
+  split
+  · exact hi
+  · exact status_VInv v.bonded true v.jailed v.ubHeight hi
+
+theorem matureStep_VInv {n : Nat} {v : VS} (h : Nat) (hi : VInv n v) :
+    VInv n (if v.bonded then v.endBlock h else (v.endBlock h).matureVal) := by
+  split
+  · exact endBlock_VInv h hi
+  · exact matureVal_VInv (endBlock_VInv h hi)
 
 /-- one successful operation keeps the invariant of every validator (and the universe of accounts / validators) -/
 theorem exec_SInv {c : Cfg} (hg : good c = true) {s s' : State} {o : Op}
@@ -1359,13 +1371,17 @@ theorem exec_SInv {c : Cfg} (hg : good c = true) {s s' : State} {o : Op}
     · rename_i hok
       have hv : v < s.nVal := by
         apply lt_of_okVal
-        revert hok; cases s.okVal v <;> cases (decide (ONE < f)) <;> decide
+        revert hok; cases s.okVal v <;> cases (decide (ONE < f)) <;> cases (s.vs v).unbonded <;> decide
       cases h
       exact ⟨SInv_setVS hi (slash_VInv _ _ _ (hi v hv)), rfl, rfl⟩
   | block =>
     simp only [State.exec] at h
     cases h
     exact ⟨fun w hw => endBlock_VInv _ (hi w hw), rfl, rfl⟩
+  | mature =>
+    simp only [State.exec] at h
+    cases h
+    exact ⟨fun w hw => matureStep_VInv _ (hi w hw), rfl, rfl⟩
   | jail v =>
     simp only [State.exec] at h
     split at h
@@ -1375,7 +1391,7 @@ theorem exec_SInv {c : Cfg} (hg : good c = true) {s s' : State} {o : Op}
         apply lt_of_okVal
         revert hok; cases s.okVal v <;> cases (s.vs v).jailed <;> decide
       cases h
-      exact ⟨SInv_setVS hi (status_VInv _ _ _ (hi v hv)), rfl, rfl⟩
+      exact ⟨SInv_setVS hi (status_VInv _ _ _ _ (hi v hv)), rfl, rfl⟩
   | unjail v =>
     simp only [State.exec] at h
     split at h
@@ -1385,7 +1401,7 @@ theorem exec_SInv {c : Cfg} (hg : good c = true) {s s' : State} {o : Op}
         apply lt_of_okVal
         revert hok; cases s.okVal v <;> cases (s.vs v).jailed <;> decide
       cases h
-      exact ⟨SInv_setVS hi (status_VInv _ _ _ (hi v hv)), rfl, rfl⟩
+      exact ⟨SInv_setVS hi (status_VInv _ _ _ _ (hi v hv)), rfl, rfl⟩
 
 theorem step_SInv {c : Cfg} (hg : good c = true) {s : State} (o : Op) (hi : SInv s) :
     SInv (s.step c o) ∧ (s.step c o).nAcc = s.nAcc ∧ (s.step c o).nVal = s.nVal := by
